@@ -296,6 +296,14 @@ def who(ctx):
                    "" if ok else "non-const use (%s) in %s" % (acc, f.name), fn=f.label, inst=f.qname)
 
 
+def _is_moved(f, e):
+    """the expression hands its operand over as an rvalue (std::move / rvalue std::forward): the source is emptied"""
+    e = unwrap(f, e)
+    while e is not None and e["k"] in CTORS and len(e["args"]) == 1:
+        e = unwrap(f, f.s(e["args"][0]))
+    return e is not None and e["k"] == "CallExpr" and callee_fq(e) in ("std::move", "std::forward") and e.get("vk") == "x"
+
+
 def ptr_of(f, e):
     """path of the pointer through which the object expression e is reached (`*p`, or a reference bound to `*p`)"""
     e = unwrap(f, e)
@@ -380,10 +388,10 @@ def lr_handlers(ctx, rid="C20.lr"):
                 asg = []
                 for d in f.descendants(body):
                     if d["k"] == "CXXOperatorCallExpr" and d.get("op") == "=" and len(d["args"]) == 2:
-                        asg.append((ptr_of(f, f.s(d["args"][0])), ptr_of(f, f.s(d["args"][1]))))
+                        asg.append((ptr_of(f, f.s(d["args"][0])), None if _is_moved(f, f.s(d["args"][1])) else ptr_of(f, f.s(d["args"][1]))))
                     if d["k"] == "BinaryOperator" and d["op"] == "=":
                         l, r = f.children(d)
-                        lp, rp = ptr_of(f, l), ptr_of(f, r)
+                        lp, rp = ptr_of(f, l), (None if _is_moved(f, r) else ptr_of(f, r))
                         if lp or rp:
                             asg.append((lp, rp))
                 rethrow = any(d["k"] == "CXXThrowExpr" and d.get("rethrow") for d in f.descendants(body))
